@@ -11,7 +11,7 @@ import zlib
 from harness.common import Collector
 
 NAMES = ["a", "mod.f", "release 3 12 notes", "m", "é", "x y", "Term", "term"]
-TYPES = ["py:module", "py:function", "std:label", "std:term", "rst:directive:option", "nocolon", "c:macro"]
+TYPES = ["py:module", "py:function", "std:label", "std:term", "rst:directive:option", "nocolon", "c:macro", "js:module", "mat:module"]
 LOCS = ["a.html#x", "lib/m.html#$", "$", "u.html", ""]
 DISP = ["-", "Title", "a b c", ""]
 
@@ -135,6 +135,9 @@ def run(tier, seed, extra):
     # duplicates of py:module (first wins), '$' expansion, names with spaces, std:label case variants
     fixed = [
         ["m py:module 0 first.html -", "m py:module 0 second.html -"],
+        # ... of every other type the LAST entry wins, also for other domains' `module` objects
+        ["m js:module 0 first.html -", "m js:module 0 second.html A"], ["m mat:module 0 first.html -", "m mat:module 0 second.html -", "m py:module 0 third.html -"],
+        ["f py:function 1 a.html -", "f py:function 1 b.html B"], ["m py:module 0 first.html -", "m py:function 0 x.html -", "m py:module 0 second.html -", "m py:function 0 y.html -"],
         ["release 3 12 notes std:term -1 a.html#$ -"],
         ["Term std:term -1 a.html -", "term std:term -1 b.html -"],
         ["a nocolon 1 x.html -"],
